@@ -711,11 +711,45 @@ class FakeNet:
 # --------------------------------------------------------------------------
 # installing the controlled world around the real server
 # --------------------------------------------------------------------------
+def log_debug_on():
+    """Root logger at DEBUG with a handler that formats every record and throws
+    it away; returns what is needed to undo it."""
+    import logging
+
+    class Sink(logging.Handler):
+        def emit(self, record):
+            self.format(record)
+    root = logging.getLogger()
+    state = (root.level, list(root.handlers), logging.raiseExceptions, root.manager.disable)
+    for h in list(root.handlers):
+        root.removeHandler(h)
+    h = Sink()
+    h.setFormatter(logging.Formatter('%(asctime)s %(name)s %(levelname)s %(message)s'))
+    root.addHandler(h)
+    root.setLevel(logging.DEBUG)
+    logging.raiseExceptions = False
+    logging.disable(logging.NOTSET)
+    return state
+
+
+def log_debug_off(state) -> None:
+    import logging
+    root = logging.getLogger()
+    for h in list(root.handlers):
+        root.removeHandler(h)
+    for h in state[1]:
+        root.addHandler(h)
+    root.setLevel(state[0])
+    logging.raiseExceptions = state[2]
+    logging.disable(state[3])
+
+
 class World:
     """Context manager: patches the module globals of the real code."""
 
-    def __init__(self, sched: Sched):
+    def __init__(self, sched: Sched, debug_logging: bool = False):
         self.sched = sched
+        self.debug_logging = debug_logging
         self.net = FakeNet(sched)
         self.saved: List[Tuple[Any, str, Any]] = []
         self.player_threads: List[Any] = []
@@ -731,7 +765,14 @@ class World:
         from bridge_env.network_bridge import socket_interface as imod
         sched, world = self.sched, self
         self._log_disable = logging.root.manager.disable
-        logging.disable(logging.CRITICAL)
+        self._log_state = None
+        if self.debug_logging:
+            # the command line of server and client switches DEBUG logging on
+            # (logging.basicConfig(level=DEBUG)): every log statement of the
+            # library is then evaluated and formatted (into a sink)
+            self._log_state = log_debug_on()
+        else:
+            logging.disable(logging.CRITICAL)
         nq = [0]
         seat_names = ['N', 'E', 'S', 'W']
 
@@ -892,5 +933,7 @@ class World:
                     pass
             else:
                 setattr(obj, name, old)
+        if self._log_state is not None:
+            log_debug_off(self._log_state)
         logging.disable(self._log_disable)
         return False
